@@ -96,6 +96,9 @@ pub struct Report {
     /// `C` checkpoint, `X` clear of a live checkpoint, `R` rollback. First 64 decisions
     pub decisions: String,
     pub end_of_input: Option<EndOfInput>,
+    /// Lowest address of a hook's own stack frame seen during the call (0 = none seen): with
+    /// the address of a local in the caller it bounds the native stack the call used
+    pub lowest_stack_addr: usize,
     // private bookkeeping
     errors_at_checkpoint: u64,
     tokens_at_checkpoint: u64,
@@ -248,6 +251,15 @@ pub(super) fn tick_main(
     });
 }
 
+#[inline]
+fn note_stack(r: &mut Report) {
+    let probe = 0u8;
+    let here = std::ptr::addr_of!(probe) as usize;
+    if r.lowest_stack_addr == 0 || here < r.lowest_stack_addr {
+        r.lowest_stack_addr = here;
+    }
+}
+
 /// Called for every character the cursor looks at or consumes
 #[inline]
 pub(super) fn tick_cursor(n: u64) {
@@ -257,6 +269,7 @@ pub(super) fn tick_cursor(n: u64) {
             return;
         }
         r.cursor_steps += n;
+        note_stack(&mut r);
         if r.cursor_steps > r.budget.cursor_steps {
             let v = r.cursor_steps;
             drop(r);
@@ -274,6 +287,7 @@ pub(super) fn tick_token() {
             return;
         }
         r.tokens += 1;
+        note_stack(&mut r);
         if r.tokens > r.budget.tokens {
             let v = r.tokens;
             drop(r);
